@@ -1196,6 +1196,15 @@ func (c *control) dirP(colon, at bool, params []any) {
 }
 
 func (c *control) dirR(colon, at bool, params []any) {
+	if 0 < len(params) && params[0] != nil {
+		// ~radix,mincol,padchar,commachar,comma-intervalR prints in that radix
+		radix := c.getIntParam(0, params, 10, true)
+		if radix < 2 || 36 < radix {
+			c.invalidDirParam(c.str, c.pos)
+		}
+		c.dirInt(colon, at, params[1:], radix)
+		return
+	}
 	if len(c.args) <= c.argPos {
 		slip.ErrorPanic(c.scope, 0, "missing argument for Radix directive at %d of %q", c.pos, c.str)
 	}
